@@ -11,8 +11,26 @@ ASSUMPTIONS = ['theorems are about Msimple (Tame types: 61 Flat + 7 RootChoice);
 KINDS = ['mixed', 'fwd', 'worddup', 'mixed', 'fwd', 'addonly', 'mixed', 'perm']
 
 
+def _oracle(d):
+    at = d.get('at', '')
+    return 'exception class or output (C19) at %s: library %s, model %s' % (at, d.get('real'), d.get('model')) if ('internal' in (d.get('real') or '') or 'internal' in (d.get('model') or '')) else None
+
+
 def run(ctx):
-    return mc.generic_run(ctx, 'C19', KINDS, n_quick=12, n_thorough=150)
+    from props import element_common as ec
+    a = mc.generic_run(ctx, 'C19', KINDS, n_quick=12, n_thorough=150)
+    b = ec.generic(ctx, 'C19', {'depths': [0, 1, 2], 'mixed': 0.3, 'copy': 0.2, 'dots': True}, n_quick=(24, 40), n_thorough=(96, 200),
+                   with_values=True, oracle=_oracle)
+    out = dict(a)
+    out['violations'] = a['violations'] + b['violations']
+    out['known'] = a['known'] + [k for k in b['known'] if k not in a['known']]
+    out['evaluations'] = a['evaluations'] + b['evaluations']
+    out['distinct_nontrivial'] = a['distinct_nontrivial'] + b['distinct_nontrivial']
+    out['disagreements'] = a['disagreements'] + b['disagreements']
+    out['rule'] = a['rule'] + ' || element engine: ' + b['rule']
+    out['samples'] = a['samples'][:5] + b['samples'][:2]
+    out['coverage'] = dict(a['coverage'], element_engine=b['coverage'])
+    return out
 
 
 def replay(ctx, payload):
